@@ -61,7 +61,57 @@ func judgeC08(c *Ctx, cs C08Case) {
 	}
 }
 
+// C08Cross is a context holding BOTH an or-later spelling (hole \x01: X+ / X-or-later) and a plain spelling (hole \x02:
+// X / X-only) of the same id; all four combinations must agree.
+type C08Cross struct {
+	ID      string  `json:"id"`
+	Expr    ev.QS   `json:"expr"`
+	Allowed []ev.QS `json:"allowed"`
+}
+
+const hole2 = "\x02"
+
+func judgeC08Cross(c *Ctx, cs C08Cross) {
+	var first SatRes
+	var firstE string
+	var firstA []string
+	for combo := 0; combo < 4; combo++ {
+		p, q := cs.ID+"+", cs.ID
+		if combo&1 != 0 {
+			p = cs.ID + "-or-later"
+		}
+		if combo&2 != 0 {
+			q = cs.ID + "-only"
+		}
+		rep := strings.NewReplacer(hole, p, hole2, q)
+		e := rep.Replace(string(cs.Expr))
+		a := make([]string, len(cs.Allowed))
+		for i, x := range cs.Allowed {
+			a[i] = rep.Replace(string(x))
+		}
+		r := c.Sat(e, a)
+		c.Inc("cross_substitutions")
+		if combo == 0 {
+			first, firstE, firstA = r, e, a
+			continue
+		}
+		if r.Panic != "" || first.Panic != "" || r.IsErr != first.IsErr || r.OK != first.OK {
+			c.Violation("spell:"+cs.ID+":cross", "C08.cross", cs, "spellings of %q are not interchangeable when both kinds occur together: Satisfies(%q,%q)=%s but Satisfies(%q,%q)=%s", cs.ID, firstE, firstA, first, e, a, r)
+			return
+		}
+	}
+}
+
 func replayC08(c *Ctx, rule string, raw json.RawMessage) {
+	if rule == "C08.cross" {
+		var cs C08Cross
+		if err := json.Unmarshal(raw, &cs); err != nil {
+			fmt.Println("bad case:", err)
+			return
+		}
+		judgeC08Cross(c, cs)
+		return
+	}
 	var cs C08Case
 	if err := json.Unmarshal(raw, &cs); err != nil {
 		fmt.Println("bad case:", err)
@@ -103,6 +153,7 @@ func runC08(c *Ctx, phase string) {
 	c.Floor("active_ids_checked", int64(len(u.Active)))
 	c.Floor("pairs_later_valid", int64(len(u.Active)))
 	c.Floor("pairs_only_valid", int64(len(u.Active)))
+	c.Floor("ids_with_cross_contexts", int64(len(u.Active)))
 	c.Floor("result_true", 2000)
 	c.Floor("result_false", 2000)
 
@@ -162,6 +213,25 @@ func runC08(c *Ctx, phase string) {
 		for j := 0; j < 4; j++ {
 			partnerTerms = append(partnerTerms, r.Pick(u.Active))
 		}
+		if laterOK && onlyOK {
+			// both kinds of spelling of the same id in ONE expression or ONE allowed list
+			for j := 0; j < 6 && j < len(partnerTerms); j++ {
+				p := partnerTerms[r.Intn(len(partnerTerms))]
+				for _, t := range []C08Cross{
+					{ID: id, Expr: ev.QS("(" + hole + " AND MIT) OR " + hole2), Allowed: []ev.QS{ev.QS(p)}},
+					{ID: id, Expr: ev.QS(hole2 + " AND (" + hole + " OR MIT)"), Allowed: []ev.QS{ev.QS(p), "MIT"}},
+					{ID: id, Expr: ev.QS(hole + " OR " + hole2), Allowed: []ev.QS{ev.QS(p)}},
+					{ID: id, Expr: ev.QS(hole2 + " OR ISC OR " + hole), Allowed: []ev.QS{ev.QS(p)}},
+					{ID: id, Expr: ev.QS(p), Allowed: []ev.QS{hole, hole2}},
+					{ID: id, Expr: ev.QS(p), Allowed: []ev.QS{hole2, "MIT", hole}},
+					{ID: id, Expr: ev.QS(hole + " WITH " + e1 + " OR " + hole2), Allowed: []ev.QS{ev.QS(p + " WITH " + e1)}},
+					{ID: id, Expr: ev.QS(hole2 + " AND " + hole + " AND " + hole2), Allowed: []ev.QS{ev.QS(p), hole2}},
+				} {
+					judgeC08Cross(c, t)
+				}
+			}
+			c.Inc("ids_with_cross_contexts")
+		}
 		for _, pair := range []string{"later", "only"} {
 			if (pair == "later" && !laterOK) || (pair == "only" && !onlyOK) {
 				c.Inc("pairs_skipped_one_spelling_invalid")
@@ -196,7 +266,7 @@ func runC08(c *Ctx, phase string) {
 					at := r.Intn(len(leaf))
 					leaf[at] = hole
 					rr := gen.NewRand(c.Seed, 0xC082, gen.HashStr(id), uint64(k))
-					text := tc.Tree.Render(leaf, gen.RenderOpt{Paren: rr.Intn(3), R: rr})
+					text := tc.Tree.Render(leaf, gen.RenderOpt{Paren: rr.Intn(3), Spaces: rr.Chance(1, 2), R: rr})
 					kk := len(leaf)
 					for mask := 1; mask < 1<<kk; mask++ {
 						var allowed []ev.QS
